@@ -307,12 +307,18 @@ class World:
 
         self._set(S.System, "_fwd_prop", fwd)
         self._set(S.System, "_back_prop", back)
+        from . import spec as _spec
+
+        _spec.CURRENT_WORLD = self
         self._wctx = warnings.catch_warnings(record=True)
         self.warnings = self._wctx.__enter__()
         warnings.simplefilter("always")
         return self
 
     def __exit__(self, *a):
+        from . import spec as _spec
+
+        _spec.CURRENT_WORLD = None
         self._wctx.__exit__(*a)
         for obj, name, old, missing in reversed(self._saved):
             if old is missing:
